@@ -834,7 +834,15 @@ func ruleSem4(c *Ctx, r *Reporter) {
 			opCall = call
 		}
 	})
-	if opCall == nil {
+	// the outcome to negate: the result of calling the argument, or - matchNegate(err error) - the argument itself
+	var outcome ssa.Value
+	startBlock, startIdx := neg.Blocks[0], 0
+	if opCall != nil {
+		outcome, startBlock, startIdx = opCall, opCall.Block(), instrIndex(opCall)+1
+	} else if len(neg.Params) == 1 && isErrorType(neg.Params[0].Type()) {
+		outcome = neg.Params[0]
+	}
+	if outcome == nil {
 		r.bad("matchNegate:shape", c.pos(neg.Pos()), "matchNegate does not call its argument")
 	} else {
 		for _, tc := range []struct {
@@ -844,12 +852,12 @@ func ruleSem4(c *Ctx, r *Reporter) {
 			env := &absEnv{vals: map[ssa.Value]aVal{}}
 			in := tc.in
 			env.seed = func(v ssa.Value) (aVal, bool) {
-				if v == ssa.Value(opCall) {
+				if v == outcome {
 					return in, true
 				}
 				return aVal{}, false
 			}
-			rets, _, ok := env.run(opCall.Block(), nil, nil, instrIndex(opCall)+1)
+			rets, _, ok := env.run(startBlock, nil, nil, startIdx)
 			key := fmt.Sprintf("matchNegate[%v]", tc.in)
 			if !ok || len(rets) != 1 {
 				r.unk(key, c.pos(neg.Pos()), "cannot evaluate: "+env.why)
@@ -874,6 +882,35 @@ func ruleSem4(c *Ctx, r *Reporter) {
 				negCall = call
 			}
 		})
+		if negCall != nil && len(nf.AnonFuncs) == 0 && len(negCall.Call.Args) == 1 {
+			// matchNegate(<positive operator>(same arguments)): the outcome is passed instead of a thunk
+			direct := false
+			for _, ret := range returnsOf(nf) {
+				if retVal(ret, 0) == ssa.Value(negCall) {
+					direct = true
+				}
+			}
+			if inner, ok := negCall.Call.Args[0].(*ssa.Call); ok && staticFn(&inner.Call) == pf && direct {
+				argsOK := len(inner.Call.Args) == len(nf.Params)
+				for i, a := range inner.Call.Args {
+					if !argsOK {
+						break
+					}
+					if _, isConst := a.(*ssa.Const); isConst {
+						if s, ok := constString(a); !ok || s != p.posName {
+							argsOK = false
+						}
+					} else if a != ssa.Value(nf.Params[i]) {
+						argsOK = false
+					}
+				}
+				if argsOK {
+					good = true
+				} else {
+					why = "the negated call does not pass the operator's own arguments through unchanged"
+				}
+			}
+		}
 		if negCall != nil && len(nf.AnonFuncs) == 1 {
 			// the result of matchNegate is returned unchanged
 			direct := false
@@ -1210,59 +1247,96 @@ func ruleSem6(c *Ctx, r *Reporter) {
 }
 
 func ruleMod1(c *Ctx, r *Reporter) {
-	fn := c.lookupSSA(pkgMongokit, "docsEqual")
-	if fn == nil {
-		r.bad("anchor:docsEqual", "-", "not found")
-		return
+	const marshalF = "go.mongodb.org/mongo-driver/bson.Marshal"
+	// byteEq: the bytes.Equal calls of g whose operands are the serialisations (bson.Marshal) of two different values
+	type eqSite struct {
+		eq       *ssa.Call
+		marshals [2]*ssa.Call
+		good     bool
 	}
-	var marshals []*ssa.Call
-	var eq *ssa.Call
-	allInstrs(fn, func(in ssa.Instruction) {
-		if call, ok := in.(*ssa.Call); ok {
-			switch calleeFull(&call.Call) {
-			case "go.mongodb.org/mongo-driver/bson.Marshal":
-				marshals = append(marshals, call)
-			case "bytes.Equal":
-				eq = call
+	byteEq := func(g *ssa.Function) []eqSite {
+		var out []eqSite
+		allInstrs(g, func(in ssa.Instruction) {
+			call, ok := in.(*ssa.Call)
+			if !ok || calleeFull(&call.Call) != "bytes.Equal" {
+				return
 			}
-		}
-	})
-	good := len(marshals) == 2 && eq != nil
-	if good {
-		a, b := tupleResult(marshals[0], 0), tupleResult(marshals[1], 0)
-		good = (eq.Call.Args[0] == a && eq.Call.Args[1] == b) || (eq.Call.Args[0] == b && eq.Call.Args[1] == a)
-		// each parameter is marshalled
-		p0, p1 := false, false
-		for _, m := range marshals {
-			if stripValue(m.Call.Args[0]) == ssa.Value(fn.Params[0]) {
-				p0 = true
+			site := eqSite{eq: call}
+			okBoth := true
+			for i := 0; i < 2; i++ {
+				ex, isEx := call.Call.Args[i].(*ssa.Extract)
+				if !isEx || ex.Index != 0 {
+					okBoth = false
+					continue
+				}
+				m, isCall := ex.Tuple.(*ssa.Call)
+				if !isCall || calleeFull(&m.Call) != marshalF {
+					okBoth = false
+					continue
+				}
+				site.marshals[i] = m
 			}
-			if stripValue(m.Call.Args[0]) == ssa.Value(fn.Params[1]) {
-				p1 = true
-			}
-		}
-		good = good && p0 && p1
-		ret := false
-		for _, rt := range returnsOf(fn) {
-			if retVal(rt, 0) == ssa.Value(eq) {
-				ret = true
-			}
-		}
-		good = good && ret
+			site.good = okBoth && site.marshals[0] != site.marshals[1] && stripValue(site.marshals[0].Call.Args[0]) != stripValue(site.marshals[1].Call.Args[0])
+			out = append(out, site)
+		})
+		return out
 	}
-	r.check(good, "docsEqual:byte equality", c.pos(fn.Pos()), "bytes.Equal(bson.Marshal(a), bson.Marshal(b))", "docsEqual is not a comparison of the serialized bytes: an update that only changes a value's type (5 -> 5.0) would be reported as unmodified and silently dropped")
-	// used by Replace and Update to filter Modified
 	n := 0
 	for _, m := range []string{"Collection.Replace", "Collection.Update"} {
-		if f := c.lookupSSA(pkgMongokit, m); f != nil {
-			allInstrs(f, func(in ssa.Instruction) {
-				if call, ok := in.(*ssa.Call); ok && staticFn(&call.Call) == fn {
-					n++
-				}
-			})
+		f := c.lookupSSA(pkgMongokit, m)
+		if f == nil {
+			r.bad("anchor:mongokit."+m, "-", "not found")
+			continue
 		}
+		found := 0
+		// written in the method itself
+		for _, site := range byteEq(f) {
+			found++
+			r.check(site.good, m+":byte equality", c.pos(site.eq.Pos()), "bytes.Equal(bson.Marshal(old), bson.Marshal(new))", "the modified test is not a comparison of the serialized bytes of two documents: an update that only changes a value's type (5 -> 5.0) would be reported as unmodified and silently dropped")
+		}
+		// or in a function of the package that compares its two parameters and returns the verdict
+		allInstrs(f, func(in ssa.Instruction) {
+			call, ok := in.(*ssa.Call)
+			if !ok {
+				return
+			}
+			h := staticFn(&call.Call)
+			if h == nil || h.Blocks == nil || fnPkgPath(h) != pkgMongokit || len(h.Params) != 2 {
+				return
+			}
+			sites := byteEq(h)
+			if len(sites) != 1 {
+				return
+			}
+			found++
+			site := sites[0]
+			good := site.good
+			if good {
+				p0, p1 := false, false
+				for _, mc := range site.marshals {
+					if stripValue(mc.Call.Args[0]) == ssa.Value(h.Params[0]) {
+						p0 = true
+					}
+					if stripValue(mc.Call.Args[0]) == ssa.Value(h.Params[1]) {
+						p1 = true
+					}
+				}
+				ret := false
+				for _, rt := range returnsOf(h) {
+					if retVal(rt, 0) == ssa.Value(site.eq) {
+						ret = true
+					}
+				}
+				good = p0 && p1 && ret
+			}
+			r.check(good, m+":byte equality", c.pos(call.Pos()), h.Name()+" = bytes.Equal(bson.Marshal(a), bson.Marshal(b))", h.Name()+" is not a comparison of the serialized bytes: an update that only changes a value's type (5 -> 5.0) would be reported as unmodified and silently dropped")
+		})
+		if found == 0 {
+			r.bad(m+":byte equality", c.pos(f.Pos()), "no comparison of the serialized old and new document decides what counts as modified")
+		}
+		n += found
 	}
-	r.guard(n, 2, "docsEqual uses in Replace/Update")
+	r.guard(n, 2, "byte comparisons in Replace/Update")
 }
 
 func ruleUpd1(c *Ctx, r *Reporter) {
